@@ -61,6 +61,9 @@ func (c *Ctx) RuleUpd() []*Result {
 						}
 					}
 				}
+				if fv, has := fields["Filters"]; has && !isNilConst(fv) {
+					problems = append(problems, "Filters are configured: in go-selfupdate v1.4.1 a configured filter replaces the OS/architecture suffix match (detect.go: hasFilters), so an asset built for another platform can be selected")
+				}
 				for _, k := range []string{"OS", "Arch"} {
 					if fv, has := fields[k]; has {
 						if s, isC := constString(fv); isC && s != "" {
@@ -112,6 +115,12 @@ func (c *Ctx) RuleUpd() []*Result {
 					guard.ok(gkey, pos, f.Name()+" compares versions inside the library")
 				}
 			case f != nil && objPkgPath(f) == selfupdatePkg && (f.Name() == "DetectLatest" || f.Name() == "DetectVersion"):
+				api.Instances++
+				if recvNamed(f) != "Updater" {
+					api.bad(fnName+":call "+qualName(f), pos, "the release is detected through the package-level "+qualName(f)+", which uses the library's default updater: no validator is configured, so a release without (or with a wrong) checksum file is accepted")
+				} else {
+					api.ok(fnName+":call "+qualName(f), pos, "detection goes through the configured *selfupdate.Updater")
+				}
 				found.Instances++
 				key := fnName + ":found result of " + f.Name()
 				fv := resultValue(call, 1)
